@@ -742,10 +742,10 @@ class CellsImpl(*_cells_impl_base):
     # Get/Set values
 
     def on_eval_formula(self, key):
-        if self.is_cached:
-            return self._store_value(key, self.altfunc.fresh.altfunc(*key))
+        value = self.altfunc.fresh.altfunc(*key)
+        if self.is_cached and not self.system.callstack.is_tainted():
+            return self._store_value(key, value)
         else:
-            value = self.altfunc.fresh.altfunc(*key)
             if value is None and not self.get_property("allow_none"):
                 raise NoneReturnedError(get_node_repr((self, key, None)))
             return value
